@@ -203,9 +203,10 @@ def audit_axioms(module, theorems, log):
     res = {t: None for t in theorems}
     out = r.stdout
     # "'name' depends on axioms: [a, b]"  or "'name' does not depend on any axioms"
-    for m in re.finditer(r"'([^']+)' depends on axioms: \[([^\]]*)\]", out, re.S):
+    # theorem names may themselves contain primes: anchor on the fixed phrases
+    for m in re.finditer(r"^'([^\n]+?)' depends on axioms: \[([^\]]*)\]", out, re.S | re.M):
         res[m.group(1)] = [a.strip() for a in m.group(2).replace("\n", " ").split(",") if a.strip()]
-    for m in re.finditer(r"'([^']+)' does not depend on any axioms", out):
+    for m in re.finditer(r"^'([^\n]+?)' does not depend on any axioms", out, re.M):
         res[m.group(1)] = []
     return res, out
 
